@@ -68,6 +68,22 @@ CHECKS = {
         note=E1 + 'timing is about the integer model clock under maximal progress (virtual clock in the tie); the in-worker '
              "pool's concurrency limit is not modelled; process workers through the theorem (same Worker code) plus a few sampled real-process runs.",
         ref='§5 C09', engine='E1-detsched+lean'),
+    'C11': dict(
+        technique='Lean 4 proof (start: structural induction over servlet trees; stop: inductive invariants + progress + decreasing measure on a network-of-threads-and-FIFO-queues LTS compiled from the tree) + schedule-controlled replay of every queue operation of the real Server through the model + process-level sampling',
+        text='C11_all_or_nothing: for every servlet tree and failure plan, __enter__ either starts every worker/helper thread or '
+             'reports the first failing worker and leaves nothing running. C11_stop_terminates (measure), C11_stop_final (all '
+             'threads exited, ledger empty when __exit__ returns) and C11_reenter hold for every well-formed network, pipe '
+             'capacity, residual workload and schedule; C11_stop_complete_partial (no hang) holds under the decidable side '
+             'condition Net.safe (all thread-servlet trees; one-worker process servlets in sequences/ensembles with any residual); '
+             'the full no-hang statement is false (kernel-checked C11_F19_witness). Tie: thread-servlet trees run under the '
+             'deterministic scheduler, start order/error/survivors are compared with the model function and every put/get on the '
+             'servlet queues plus every join of the main thread is replayed through Lifecycle.step by the Lean driver; trees with '
+             'ProcessServlets run as real processes (failing worker index x shape, abandoned streams larger than the pipe buffer, '
+             'exit hang bound, re-enter), children/threads counted against the baseline.',
+        note=E1 + 'ProcessServlet trees: OS schedule sampled (E4); well-formedness of the compiled network is evaluated per tree, not '
+             'proved for all trees; binary ensembles/switches only; batching workers and AsyncServer.__aexit__ not modelled; F19 and its '
+             'switch variant are known findings (exit hang with multi-writer pipes).',
+        ref='§5 C11', engine='E1-detsched+E4-processes+lean'),
     'C15': dict(
         technique='Lean 4 proof (structural induction over a tree model of RemoteException wrap / pickle / rebuild, nested EnsembleError results included) + exact differential comparison of the model\'s executable definitions with real pickle hops',
         text='Theorems C15_roundtrip (any hop list, re-raised or forwarded at each hop: class and args unchanged, '
